@@ -32,8 +32,17 @@ def _case(draw, tier):
     spec, combo = draw(solve.spec_and_combo(dtypes=("float64", "float32")))
     # a diffusion that returns one stored tensor on every call: the solver must treat what f and g return as read-only
     spec["gstored"] = draw(st.sampled_from([None, None, None, True]))
+    # a drift that returns its input tensor itself (dY = Y dt + ...): recorded states must not be overwritten
+    spec["f_alias"] = draw(st.sampled_from([None, None, None, True]))
     tset = draw(solve.time_setup(max_steps=24 if tier == "quick" else 64, dtypes=(spec["dtype"],)))
-    if draw(st.sampled_from([False, False, False, True])):
+    small = spec["dtype"] == "float64" and draw(st.sampled_from([False, False, False, False, True]))
+    if small:
+        # a fixed step below the default dt_min (1e-5): dt_min belongs to adaptive stepping only (float64 times near the
+        # origin only: such a step is below the time resolution of float32 or of |t| ~ 1e3)
+        dt_small = draw(st.sampled_from([2e-6, 5e-6, 8e-7]))
+        nst = draw(st.integers(2, 12))
+        tset = dict(tset, dt=dt_small, t1=tset["t0"] + (nst + draw(st.sampled_from([0.0, 0.5]))) * dt_small)
+    if not small and draw(st.sampled_from([False, False, False, True])):
         # times far from zero: |t| / dt is what decides how much precision time differences carry in the state's dtype
         shift = draw(st.sampled_from([100.0, 1000.0, 86400.0]))
         tset = dict(tset, t0=tset["t0"] + shift, t1=tset["t1"] + shift, shifted=True)
@@ -67,6 +76,12 @@ def enumerate_cases(tier):
                                                       "tdtype": spec["dtype"], "_n": n},
                "fa": [0.37, 0.81], "fb": [0.12, 0.5, 0.93], "shared": [0.6], "grid_picks": [1, 3], "same_step": True,
                "entropy": rnd.randrange(2 ** 31 - 2), "ts_form": rnd.choice(["tensor", "list", "tuple"])}
+        # the same cell with a drift that returns its input tensor and a diffusion that returns a stored tensor: whatever the
+        # user's f and g hand back is read-only for the solver
+        yield {"spec": dict(spec, f_alias=True, gstored=True), "combo": combo,
+               "time": {"t0": 0.0, "t1": 0.0, "dt": dt, "tdtype": spec["dtype"], "_n": n},
+               "fa": [0.37], "fb": [0.5], "shared": [], "grid_picks": [1], "same_step": False,
+               "entropy": rnd.randrange(2 ** 31 - 2), "ts_form": "tensor"}
 
 
 def _ts_values(case, grid_f, fr):
